@@ -10,7 +10,10 @@ def run_full(mod, pm, ctx, adopt=True):
     mod.run(pm, ctx)
     if not adopt:
         return
-    for src_prop, rules, why in getattr(mod, "ADOPT", ()):
+    for entry in getattr(mod, "ADOPT", ()):
+        src_prop, rules, why = entry[:3]
+        only = entry[3] if len(entry) > 3 else None       # optional: adopt only the sites / findings whose text mentions this
+        excl = entry[4] if len(entry) > 4 else None       # optional: ... and does not mention this (a clause of the source rule that is not a clause here)
         sm = importlib.import_module(f"gcverif.props.{src_prop.lower()}")
         sub = Ctx(src_prop, ctx.tier, quiet=True)
         sm.run(pm, sub)
@@ -18,12 +21,14 @@ def run_full(mod, pm, ctx, adopt=True):
             new = f"{mod.PROP}<{rid}"
             ctx.rule(new, f"[rule of {src_prop}, also a necessary condition here: {why}] {sub.rule_docs.get(rid, '')}", floor=sub.floors.get(rid, 0))
             for o in sub.obligations:
-                if o["rule"] == rid:
+                if o["rule"] == rid and (only is None or only in str(o.get("site", ""))) and (excl is None or excl not in str(o)):
                     ctx.obligations.append(dict(o, rule=new))
             for f in sub.findings:
-                if f.rule == rid:
+                if f.rule == rid and (only is None or only in str(f)) and (excl is None or excl not in str(f)):
                     f.rule = new
                     ctx.findings.append(f)
             for u in sub.undecided:
-                if u["rule"] == rid:
+                if u["rule"] == rid and (only is None or only in str(u.get("site", "")) or only in str(u.get("why", ""))):
                     ctx.undecided.append(dict(u, rule=new))
+            if only is not None:
+                ctx.floors[new] = min(ctx.floors.get(new, 0), sum(1 for o in ctx.obligations if o["rule"] == new))
